@@ -18,7 +18,8 @@ Inductive caction :=
 | CArrive (i : nat)
 | CAnswer (k : nat) (a : answer)
 | CResume (i : nat)
-| CAdv (dt : Z).
+| CAdv (dt : Z)
+| CLeave (i : nat).     (* client i goes away (closes its connection) *)
 
 (* what a client ends with: status, version served (0: none), whole body, cache status *)
 Inductive cstatus := KMiss | KHit | KRevalidated | KStale | KPass | KNone.
@@ -67,8 +68,25 @@ Definition wake (maxage : Z) (swr : bool) (s : cstate) : cstate :=
   fold_left (lookup maxage swr)
             ws (mkCo (co_entry s) (co_now s) (co_active s) [] (co_nfetch s) (co_version s) (co_done s) (co_maxin s)).
 
+(* the outcome recorded for a client that went away before it was answered: not compared (nobody is there to see it) *)
+Definition gone : outcome := mkOut (-1) 0 true KNone.
+Definition is_done (s : cstate) (i : nat) : bool := existsb (fun p => Nat.eqb (fst p) i) (co_done s).
+Definition without (i : nat) (ws : list nat) : list nat := filter (fun w => negb (Nat.eqb w i)) ws.
+
 Definition cstep (maxage : Z) (swr : bool) (s : cstate) (a : caction) : cstate :=
   match a with
+  | CLeave i =>
+    (* a client that was already answered: nothing. The client of the request whose fetch is in flight: the fetch is
+       cancelled with the request, the key is released and the waiters look again. A client that waits: it waits no more
+       (woken later, its request fails at once and passes the key on). *)
+    if is_done s i then s else
+    match co_active s with
+    | Some (k, j, cond, t0) =>
+      if Nat.eqb j i
+      then wake maxage swr (finish (mkCo (co_entry s) (co_now s) None (co_waiters s) (co_nfetch s) (co_version s) (co_done s) (co_maxin s)) i gone)
+      else finish (mkCo (co_entry s) (co_now s) (co_active s) (without i (co_waiters s)) (co_nfetch s) (co_version s) (co_done s) (co_maxin s)) i gone
+    | None => finish (mkCo (co_entry s) (co_now s) (co_active s) (without i (co_waiters s)) (co_nfetch s) (co_version s) (co_done s) (co_maxin s)) i gone
+    end
   | CArrive i => lookup maxage swr s i
   | CResume _ => s
   | CAdv dt => mkCo (co_entry s) (co_now s + dt) (co_active s) (co_waiters s) (co_nfetch s) (co_version s) (co_done s) (co_maxin s)
@@ -131,6 +149,7 @@ Definition dec_caction (x : sx) : option caction :=
      else Some (CAnswer i (dec_answer (sx_str (sx_nth 2 x)))))
   else if str_eqb kind (bytes "resume") then Some (CResume i)
   else if str_eqb kind (bytes "adv") then Some (CAdv (sx_int (sx_nth 3 x)))
+  else if str_eqb kind (bytes "leave") then Some (CLeave i)
   else None.
 
 Fixpoint dec_cactions (l : list sx) : list caction :=
@@ -170,7 +189,7 @@ Definition run_coord (x : sx) : sx :=
      rrrouter ends the response normally, empty (finding F39) *)
   let nocl := sx_bool (sx_nth 5 x) in
   let view o := if nocl && negb (o_whole o) then mkOut (o_status o) (o_ver o) true (o_cache o) else o in
-  L [of_strs (sort_strs (map (fun p => enc_outcome (view (snd p))) (co_done s1)));
+  L [of_strs (sort_strs (map (fun p => enc_outcome (view (snd p))) (filter (fun p => negb (o_status (snd p) =? -1)) (co_done s1))));
      of_nat (co_nfetch s2); of_nat (co_maxin s2); I 0; final; of_bool true].
 
 (* observation = L [snapshot per action ...; last snapshot; final]
@@ -181,11 +200,17 @@ Definition client_key (c : sx) : str :=
   then outcome_key (sx_int (sx_nth 2 c)) (sx_str (sx_nth 3 c)) (sx_bool (sx_nth 4 c)) (sx_str (sx_nth 5 c))
   else sx_str (sx_nth 1 c).
 
-Definition proj_coord (o : sx) : sx :=
+(* a client that went away (a "leave" action names it) and was not answered before shows as an error on its side: it is
+   not compared *)
+Definition left_unanswered (x : sx) (c : sx) : bool :=
+  str_eqb (sx_str (sx_nth 1 c)) (bytes "error")
+  && existsb (fun a => str_eqb (sx_str (sx_nth 0 a)) (bytes "leave") && Z.eqb (sx_int (sx_nth 1 a)) (sx_int (sx_nth 0 c))) (sx_list (sx_nth 4 x)).
+
+Definition proj_coord (x o : sx) : sx :=
   let l := sx_list o in
   let final := last l (L []) in
   let snap := last (removelast l) (L []) in
-  L [of_strs (sort_strs (map client_key (sx_list (sx_nth 4 snap))));
+  L [of_strs (sort_strs (map client_key (filter (fun c => negb (left_unanswered x c)) (sx_list (sx_nth 4 snap)))));
      sx_nth 0 snap; sx_nth 2 snap; sx_nth 3 snap;
      (if str_eqb (sx_str (sx_nth 0 final)) (bytes "done")
       then A (outcome_key (sx_int (sx_nth 1 final)) (sx_str (sx_nth 2 final)) (sx_bool (sx_nth 3 final)) (bytes "*"))
@@ -228,6 +253,6 @@ Definition mon_C13 (x o : sx) : sx :=
   if str_eqb fin (bytes "pending") then verdict false "after the schedule a plain request for the resource is not answered (key wedged)"
   else if negb (str_eqb (key_field fin 0) (bytes "200") && str_eqb (key_field fin 2) (bytes "whole") && nonempty (key_field fin 1))
   then verdict false "after the schedule a plain request does not get a complete version (key poisoned)"
-  else if negb (sx_bool (sx_nth 5 o)) then verdict false "after the schedule a plain request took more than 3 s"
+  else if negb (sx_bool (sx_nth 5 o)) then verdict false "after the schedule a plain request took more than 10 s"
   else if negb (Z.eqb (sx_int (sx_nth 3 o)) 0) then verdict false "the key was left locked"
   else mon_C12 x o.
